@@ -147,7 +147,7 @@ class C04(EngineACheck):
         "cached result"
     )
     EXPECTED_PROBES = ["env_ops", "replayed_tasks", "reexecuted_after_invalidation", "executions"]
-    QUICK_SECONDS = 35.0
+    QUICK_SECONDS = 45.0
 
     def run_one(self, ch: Choices) -> RunOutcome:
         out = RunOutcome()
